@@ -63,8 +63,8 @@ TCount == /\ IsEvent("count")
 SampleMatches(r, s) ==
   /\ r.len = s.size /\ r.start = s.start /\ r.dur = s.dur /\ r.cts = s.cts
   /\ (s.syncKnown => r.sync = s.sync)
-  /\ (r.b = <<>> \/ s.size = 0 \/ ~InFile(file, s.off, s.size) \/ r.b = BytesAt(file, s.off, s.size))
-  /\ (r.b # <<>> \/ s.size <= 8 \/ ~InFile(file, s.off, s.size)
+  /\ (r.b = <<>> \/ s.size = 0 \/ ~Logged(file, s.off, s.size) \/ r.b = BytesAt(file, s.off, s.size))
+  /\ (r.b # <<>> \/ s.size <= 8 \/ ~Logged(file, s.off, s.size)
         \/ (r.head = BytesAt(file, s.off, 8) /\ r.tail = BytesAt(file, Add(s.off, FromInt(s.size - 8)), 8)))
 SampleDiff(r, s) ==
   (IF r.len = s.size THEN {} ELSE {"size"}) \cup (IF r.start = s.start THEN {} ELSE {"start"})
